@@ -1,9 +1,1018 @@
-//! C13 — not implemented yet.
-use crate::util::{Args, Out};
-use serde_json::{Value, json};
+//! C13 — tokens and syntax tree are lossless over the source text.
+//!
+//! The real `parser::tokenize`, `parser::preparse` and `parser::parse_cst` are executed on
+//! (a) every string over a lexeme table up to a length bound with every separator choice,
+//! (b) every corpus file, all of its char-boundary prefixes/suffixes and token-level
+//! mutations of it, (c) random Unicode-laden texts. A structural oracle looks at the
+//! returned values only: token offsets, the trivia maps, the `GreenNode::Token` leaves.
+//!
+//! Clauses (signature prefix):
+//!   tiling/…          tokens contiguous from 0 to len, in order, non-overlapping, on char
+//!                     boundaries, final zero-width Eof at len, concatenation == input
+//!   tiling-after-parse/… the same for the token vector handed back by `parse_cst`
+//!   tree/…            the non-trivia tokens are exactly the token leaves, once, in order
+//!   trivia/…          every trivia token is in exactly one trivia-map entry, and the
+//!                     host of that entry is the adjacent non-trivia token (only for texts
+//!                     with at least one non-trivia token)
 
-pub fn meta(_args: &Args) -> Value {
-    json!({"level": "exploration", "rule": "not implemented", "floor": {"quick": 1000000, "thorough": 1000000}})
+use super::{drive, replay_one};
+use crate::util::{Args, Out, Panic, Rng, catch, on_thread};
+use mimium_lang::compiler::parser::green::GreenNode;
+use mimium_lang::compiler::parser::{Token, TokenKind, parse_cst, preparse, tokenize};
+use serde::{Deserialize, Serialize};
+use serde_json::{Value, json};
+use std::collections::{BTreeMap, BTreeSet};
+
+// ---------------------------------------------------------------- lexeme tables
+
+/// One or more lexemes per token kind, plus the pieces that only become tokens (or fail to)
+/// in combination: unterminated strings/comments, float-vs-projection shapes, CR/CRLF,
+/// characters outside the grammar, multi-byte characters.
+const FULL: &[&str] = &[
+    // identifiers / placeholder
+    "a", "x1", "_", "_a",
+    // keywords
+    "fn", "macro", "self", "now", "samplerate", "let", "letrec", "if", "else", "match", "float", "int",
+    "string", "struct", "include", "stage", "main", "mod", "use", "pub", "type", "alias", "rec",
+    // numbers and the float/projection shapes
+    "0", "12", "1.5", "0.0", "1.", ".5", "a.0.1", "1.2.3",
+    // strings (terminated, empty, unterminated, with blank, multi-byte, spanning a line)
+    "\"s\"", "\"\"", "\"", "\"a b\"", "\"é\"", "\"\n\"",
+    // comments (terminated, unterminated, empty, at EOF, spanning a line)
+    "//c", "//", "/*c*/", "/*", "*/", "/**/", "/*\n*/",
+    // operators
+    "->", "<-", "=>", "||>", "==", "!=", "<=", ">=", "&&", "||", "|>", "+", "-", "*", "/", "%", "^", "@",
+    "<", ">", "=", "!",
+    // punctuation
+    "::", "..", ".", ",", ":", ";", "(", ")", "[", "]", "{", "}", "`", "$", "#", "|",
+    // white space
+    " ", "\t", "\n", "\r\n", "\r",
+    // characters outside the grammar / multi-byte / odd line separators
+    "§", "é", "~", "?", "\\", "'", "&", "\0", "\u{FEFF}", "\u{2028}", "𝄞", "\u{301}",
+];
+
+/// The lexemes whose neighbours decide how they are split, plus the structural tokens the
+/// parser's recovery paths are built around.
+const CORE: &[&str] = &[
+    "a", "_", "fn", "let", "if", "else", "match", "0", "1.5", "a.0.1", ".", "..", "\"", "\"s\"", "/", "*", "//c",
+    "/*", "*/", "\n", " ", "\r", ";", "-", ">", "<", "|", "=", "=>", "!", ":", ",", "(", ")", "{", "}", "[", "]",
+    "`", "$", "#", "§",
+];
+
+/// Tokens the parser's decisions and recovery paths hinge on (always joined by one blank,
+/// so that the token sequence is exactly the lexeme sequence).
+const S1: &[&str] = &[
+    "a", "0", "(", ")", "{", "}", "|", ",", "=", "=>", ":", ".", "+", "fn", "let", "if", "match", "_", "\n", "->",
+];
+const S2: &[&str] = &[
+    "a", "0", "(", ")", "{", "}", "[", "]", "|", ",", "=", "=>", "->", ":", "::", ".", "..", "!", "`", "$", "+", "#",
+    "_", "\n", "\"s\"", "fn", "let", "if", "else", "match", "type", "use", "mod", "pub", "stage", "main",
+];
+
+const SEPS: &[&str] = &["", " ", "\n"];
+
+/// Extra material for random texts.
+const UNI: &[&str] = &[
+    "é", "∀", "𝄞", "\u{301}", "א", "\u{202E}", "\0", "\u{FEFF}", "\u{2028}", "\u{2029}", "\u{85}", "\u{B}",
+    "\u{C}", "\r", "\r\n", "\u{A0}", "\u{3000}", "ａ", "١", "ß", "😀", "\u{200B}", "\u{1F468}\u{200D}\u{1F469}",
+];
+
+fn alphabet(name: &str) -> &'static [&'static str] {
+    match name {
+        "core" => CORE,
+        "s1" => S1,
+        "s2" => S2,
+        _ => FULL,
+    }
 }
-pub fn run(_args: &Args, _out: &mut Out) {}
-pub fn replay(_args: &Args, _out: &mut Out, _case: &Value) {}
+
+// ---------------------------------------------------------------- cases
+
+#[derive(Clone, Debug, Serialize, Deserialize)]
+pub enum Case {
+    /// every string `prefix ++ w` over the alphabet with `len` lexemes in total, joined with
+    /// every choice of separator from SEPS at each of the len-1 gaps (`seps` = "all"), with
+    /// nothing ("glued") or with one blank ("blank")
+    Exh { alpha: String, len: usize, prefix: Vec<usize>, seps: String },
+    /// one explicit text
+    Text { origin: String, text: String },
+    /// prefixes `text[..c]` and suffixes `text[c..]` for every char boundary c (cuts = None)
+    /// or for the listed byte offsets
+    Cuts { origin: String, text: String, cuts: Option<Vec<usize>> },
+    /// a block of explicit texts
+    Block { origin: String, texts: Vec<String> },
+}
+
+// ---------------------------------------------------------------- observations
+
+const NK: usize = 160;
+
+struct Stats {
+    texts: u64,
+    bytes: u64,
+    nontrivial_texts: u64,
+    tokens: u64,
+    trivia: u64,
+    trivia_leading: u64,
+    trivia_trailing: u64,
+    trivia_only_texts: u64,
+    texts_with_trivia_checked: u64,
+    leaves: u64,
+    trivia_leaves: u64,
+    texts_parse_err: u64,
+    texts_error_token: u64,
+    projection_splits: u64,
+    multibyte_texts: u64,
+    panics: u64,
+    kinds: [bool; NK],
+    skinds: [bool; NK],
+    kind_names: BTreeSet<String>,
+    skind_names: BTreeSet<String>,
+    err_forms: BTreeSet<String>,
+    viol_counts: BTreeMap<String, u64>,
+    viols: Vec<(String, String, String)>, // sig, detail, text
+    panic_notes: Vec<String>,
+    /// one concrete non-trivial member of an enumeration block (for the evidence samples)
+    example: Option<String>,
+}
+
+impl Stats {
+    fn new() -> Self {
+        Stats {
+            texts: 0,
+            bytes: 0,
+            nontrivial_texts: 0,
+            tokens: 0,
+            trivia: 0,
+            trivia_leading: 0,
+            trivia_trailing: 0,
+            trivia_only_texts: 0,
+            texts_with_trivia_checked: 0,
+            leaves: 0,
+            trivia_leaves: 0,
+            texts_parse_err: 0,
+            texts_error_token: 0,
+            projection_splits: 0,
+            multibyte_texts: 0,
+            panics: 0,
+            kinds: [false; NK],
+            skinds: [false; NK],
+            kind_names: BTreeSet::new(),
+            skind_names: BTreeSet::new(),
+            err_forms: BTreeSet::new(),
+            viol_counts: BTreeMap::new(),
+            viols: vec![],
+            panic_notes: vec![],
+            example: None,
+        }
+    }
+    fn viol(&mut self, sig: String, detail: String, text: &str) {
+        let n = self.viol_counts.entry(sig.clone()).or_insert(0);
+        *n += 1;
+        if *n <= 3 {
+            self.viols.push((sig, detail, text.to_string()));
+        }
+    }
+}
+
+/// The oracle's own notion of trivia (independent of `Token::is_trivia`).
+fn is_triv(k: TokenKind) -> bool {
+    matches!(
+        k,
+        TokenKind::LineBreak | TokenKind::Whitespace | TokenKind::SingleLineComment | TokenKind::MultiLineComment
+    )
+}
+
+fn show_tokens(toks: &[Token]) -> String {
+    let mut s = String::new();
+    for (i, t) in toks.iter().enumerate().take(40) {
+        if i > 0 {
+            s.push(' ');
+        }
+        s.push_str(&format!("{i}:{:?}@{}+{}", t.kind, t.start, t.length));
+    }
+    if toks.len() > 40 {
+        s.push_str(&format!(" … ({} tokens)", toks.len()));
+    }
+    s
+}
+
+fn show_text(src: &str) -> String {
+    let e = format!("{src:?}");
+    if e.len() > 300 {
+        let mut cut = 300;
+        while !e.is_char_boundary(cut) {
+            cut -= 1;
+        }
+        format!("{}… ({} bytes)", &e[..cut], src.len())
+    } else {
+        e
+    }
+}
+
+/// First refuting tiling clause, if any.
+fn tiling(src: &str, toks: &[Token]) -> Option<(&'static str, String)> {
+    let n = src.len();
+    let Some(last) = toks.last() else {
+        return Some(("no-final-end-marker", "empty token sequence".into()));
+    };
+    if last.kind != TokenKind::Eof || last.start != n || last.length != 0 {
+        return Some((
+            "no-final-end-marker",
+            format!("last token is {:?}@{}+{} (input length {n})", last.kind, last.start, last.length),
+        ));
+    }
+    let body = &toks[..toks.len() - 1];
+    let bytes = src.as_bytes();
+    let mut concat: Vec<u8> = Vec::with_capacity(n);
+    let mut pos = 0usize;
+    for (i, t) in body.iter().enumerate() {
+        if t.kind == TokenKind::Eof {
+            return Some(("end-marker-before-end", format!("token {i} is Eof@{}+{}", t.start, t.length)));
+        }
+        let Some(end) = t.start.checked_add(t.length).filter(|e| *e <= n) else {
+            return Some((
+                "token-out-of-range",
+                format!("token {i} {:?}@{}+{} exceeds input length {n}", t.kind, t.start, t.length),
+            ));
+        };
+        if t.start > pos {
+            return Some(("gap", format!("bytes {pos}..{} are covered by no token (next token {i} {:?})", t.start, t.kind)));
+        }
+        if t.start < pos {
+            return Some((
+                "overlap-or-out-of-order",
+                format!("token {i} {:?}@{}+{} starts before the end {pos} of its predecessor", t.kind, t.start, t.length),
+            ));
+        }
+        if !src.is_char_boundary(t.start) || !src.is_char_boundary(end) {
+            return Some((
+                "off-char-boundary",
+                format!("token {i} {:?}@{}+{} is not on char boundaries", t.kind, t.start, t.length),
+            ));
+        }
+        concat.extend_from_slice(&bytes[t.start..end]);
+        pos = end;
+    }
+    if pos != n {
+        return Some(("stops-short", format!("tokens end at byte {pos}, input has {n} bytes")));
+    }
+    if concat != bytes {
+        return Some(("concat-differs", "concatenated token texts differ from the input".into()));
+    }
+    None
+}
+
+fn check_text(src: &str, st: &mut Stats) {
+    st.texts += 1;
+    st.bytes += src.len() as u64;
+    if !src.is_ascii() {
+        st.multibyte_texts += 1;
+    }
+    // ---- stage 1: tokenize
+    let toks = match catch(|| tokenize(src)) {
+        Ok(t) => t,
+        Err(p) => return note_panic(st, "tokenize", &p, src),
+    };
+    if let Some((clause, d)) = tiling(src, &toks) {
+        st.viol(format!("tiling/{clause}"), format!("text={} : {d}; tokens: {}", show_text(src), show_tokens(&toks)), src);
+    }
+    let n_tok = toks.iter().filter(|t| t.kind != TokenKind::Eof).count();
+    st.tokens += n_tok as u64;
+    for w in toks.windows(4) {
+        // `.0.1` after a projection dot: Dot Int Dot Int, all adjacent
+        if w[0].kind == TokenKind::Dot
+            && w[1].kind == TokenKind::Int
+            && w[2].kind == TokenKind::Dot
+            && w[3].kind == TokenKind::Int
+            && w[0].end() == w[1].start
+            && w[1].end() == w[2].start
+            && w[2].end() == w[3].start
+        {
+            st.projection_splits += 1;
+        }
+    }
+    if toks.iter().any(|t| t.kind == TokenKind::Error) {
+        st.texts_error_token += 1;
+    }
+    // ---- stage 2: preparse
+    let pre = match catch(|| preparse(&toks)) {
+        Ok(p) => p,
+        Err(p) => return note_panic(st, "preparse", &p, src),
+    };
+    let nontriv: Vec<usize> =
+        toks.iter().enumerate().filter(|(_, t)| !is_triv(t.kind) && t.kind != TokenKind::Eof).map(|(i, _)| i).collect();
+    let n_triv = toks.iter().filter(|t| is_triv(t.kind)).count();
+    st.trivia += n_triv as u64;
+    if nontriv.is_empty() {
+        if n_triv > 0 {
+            st.trivia_only_texts += 1;
+        }
+    } else if n_triv > 0 {
+        st.texts_with_trivia_checked += 1;
+        let mut cnt = vec![0u32; toks.len()];
+        let mut bad_host: Option<(usize, String)> = None;
+        for (leading, map) in [(true, &pre.leading_trivia_map), (false, &pre.trailing_trivia_map)] {
+            for (k, list) in map.iter() {
+                let host = pre.token_indices.get(*k).copied();
+                for &i in list {
+                    if i >= toks.len() || !is_triv(toks[i].kind) {
+                        continue; // not a trivia token: outside this clause
+                    }
+                    cnt[i] += 1;
+                    if leading {
+                        st.trivia_leading += 1;
+                    } else {
+                        st.trivia_trailing += 1;
+                    }
+                    let ok = match host {
+                        None => false,
+                        Some(h) if h >= toks.len() || is_triv(toks[h].kind) || toks[h].kind == TokenKind::Eof => false,
+                        Some(h) if leading => h > i && (i + 1..h).all(|j| is_triv(toks[j].kind)),
+                        Some(h) => h < i && (h + 1..i).all(|j| is_triv(toks[j].kind)),
+                    };
+                    if !ok && bad_host.is_none() {
+                        bad_host = Some((
+                            i,
+                            format!(
+                                "trivia token {i} is {} trivia of syntax token #{k} (raw index {host:?})",
+                                if leading { "leading" } else { "trailing" }
+                            ),
+                        ));
+                    }
+                }
+            }
+        }
+        let first_nt = nontriv[0];
+        let last_nt = *nontriv.last().unwrap();
+        // last line break in front of the first syntax token
+        let last_lb_before_first = (0..first_nt).rev().find(|&j| toks[j].kind == TokenKind::LineBreak);
+        let mut reported: BTreeSet<&'static str> = BTreeSet::new();
+        for i in 0..toks.len() {
+            if !is_triv(toks[i].kind) {
+                continue;
+            }
+            if cnt[i] == 0 {
+                let class = if i < first_nt {
+                    if last_lb_before_first.is_some_and(|lb| i <= lb) {
+                        "before-first-token-up-to-line-break"
+                    } else {
+                        "before-first-token"
+                    }
+                } else if i > last_nt {
+                    "after-last-token"
+                } else {
+                    "between-tokens"
+                };
+                if reported.insert(class) {
+                    st.viol(
+                        format!("trivia/attached-to-no-token/{class}"),
+                        format!(
+                            "text={} : trivia token {i} {:?}@{}+{} occurs in no leading/trailing entry; tokens: {}; leading={:?} trailing={:?}",
+                            show_text(src),
+                            toks[i].kind,
+                            toks[i].start,
+                            toks[i].length,
+                            show_tokens(&toks),
+                            sorted(&pre.leading_trivia_map),
+                            sorted(&pre.trailing_trivia_map)
+                        ),
+                        src,
+                    );
+                }
+            } else if cnt[i] > 1 && reported.insert("multi") {
+                st.viol(
+                    "trivia/attached-more-than-once".into(),
+                    format!(
+                        "text={} : trivia token {i} {:?} occurs {} times; tokens: {}; leading={:?} trailing={:?}",
+                        show_text(src),
+                        toks[i].kind,
+                        cnt[i],
+                        show_tokens(&toks),
+                        sorted(&pre.leading_trivia_map),
+                        sorted(&pre.trailing_trivia_map)
+                    ),
+                    src,
+                );
+            }
+        }
+        if let Some((_, d)) = bad_host {
+            st.viol(
+                "trivia/host-is-not-the-neighbouring-token".into(),
+                format!(
+                    "text={} : {d}; tokens: {}; token_indices={:?} leading={:?} trailing={:?}",
+                    show_text(src),
+                    show_tokens(&toks),
+                    &pre.token_indices[..pre.token_indices.len().min(40)],
+                    sorted(&pre.leading_trivia_map),
+                    sorted(&pre.trailing_trivia_map)
+                ),
+                src,
+            );
+        }
+    }
+    // ---- stage 3: parse_cst
+    let toks_in = toks.clone();
+    let (root, arena, toks2, errs) = match catch(|| parse_cst(toks_in, &pre)) {
+        Ok(r) => r,
+        Err(p) => return note_panic(st, "parse_cst", &p, src),
+    };
+    let same_layout =
+        toks2.len() == toks.len() && toks.iter().zip(toks2.iter()).all(|(a, b)| a.start == b.start && a.length == b.length);
+    if !same_layout && let Some((clause, d)) = tiling(src, &toks2) {
+        st.viol(
+            format!("tiling-after-parse/{clause}"),
+            format!("text={} : {d}; tokens returned by parse_cst: {}", show_text(src), show_tokens(&toks2)),
+            src,
+        );
+    }
+    for t in toks2.iter() {
+        let k = t.kind as usize;
+        if k < NK && !st.kinds[k] {
+            st.kinds[k] = true;
+            st.kind_names.insert(format!("{:?}", t.kind));
+        }
+    }
+    if !errs.is_empty() {
+        st.texts_parse_err += 1;
+        if st.err_forms.len() < 400 {
+            st.err_forms.insert(errs[0].to_string());
+        }
+    }
+    // token leaves in document order (explicit stack: no recursion in the oracle)
+    let expect: Vec<usize> =
+        toks2.iter().enumerate().filter(|(_, t)| !is_triv(t.kind) && t.kind != TokenKind::Eof).map(|(i, _)| i).collect();
+    let mut seq: Vec<usize> = Vec::with_capacity(expect.len());
+    let mut stack = vec![root];
+    let mut foreign: Option<usize> = None;
+    while let Some(id) = stack.pop() {
+        match arena.get(id) {
+            GreenNode::Token { token_index, .. } => {
+                st.leaves += 1;
+                match toks2.get(*token_index) {
+                    None => foreign = foreign.or(Some(*token_index)),
+                    Some(t) if is_triv(t.kind) || t.kind == TokenKind::Eof => st.trivia_leaves += 1,
+                    Some(_) => seq.push(*token_index),
+                }
+            }
+            GreenNode::Internal { kind, children, .. } => {
+                let k = *kind as usize;
+                if k < NK && !st.skinds[k] {
+                    st.skinds[k] = true;
+                    st.skind_names.insert(format!("{kind:?}"));
+                }
+                for c in children.iter().rev() {
+                    stack.push(*c);
+                }
+            }
+        }
+    }
+    let tag = if errs.is_empty() { "error-free-parse" } else { "error-recovery" };
+    if let Some(ti) = foreign {
+        st.viol(
+            format!("tree/leaf-is-not-a-token/{tag}"),
+            format!("text={} : a token leaf has index {ti}, the token vector has {} entries", show_text(src), toks2.len()),
+            src,
+        );
+    }
+    if seq != expect {
+        let mut seen = vec![0u32; toks2.len()];
+        for &i in &seq {
+            seen[i] += 1;
+        }
+        let missing: Vec<usize> = expect.iter().copied().filter(|&i| seen[i] == 0).collect();
+        let dup: Vec<usize> = expect.iter().copied().filter(|&i| seen[i] > 1).collect();
+        let clause = if !missing.is_empty() {
+            "token-missing"
+        } else if !dup.is_empty() {
+            "token-duplicated"
+        } else {
+            "out-of-order"
+        };
+        let show = |v: &[usize]| {
+            v.iter().take(8).map(|&i| format!("{i}:{:?} {:?}", toks2[i].kind, &src.get(toks2[i].start..toks2[i].end()).unwrap_or("?"))).collect::<Vec<_>>().join(", ")
+        };
+        st.viol(
+            format!("tree/{clause}/{tag}"),
+            format!(
+                "text={} : leaves={:?} expected={:?} missing=[{}] duplicated=[{}]; first parser error: {}; tokens: {}",
+                show_text(src),
+                &seq[..seq.len().min(40)],
+                &expect[..expect.len().min(40)],
+                show(&missing),
+                show(&dup),
+                errs.first().map(|e| e.to_string()).unwrap_or_else(|| "none".into()),
+                show_tokens(&toks2)
+            ),
+            src,
+        );
+    }
+    if n_tok >= 2 && !nontriv.is_empty() {
+        st.nontrivial_texts += 1;
+        if st.example.is_none() && n_triv > 0 && !errs.is_empty() && st.texts % 97 == 3 {
+            st.example = Some(src.to_string());
+        }
+    }
+}
+
+fn sorted(m: &std::collections::HashMap<usize, Vec<usize>>) -> Vec<(usize, Vec<usize>)> {
+    let mut v: Vec<_> = m.iter().map(|(k, l)| (*k, l.clone())).collect();
+    v.sort();
+    v.truncate(20);
+    v
+}
+
+/// A panic of the code under test leaves the oracle without anything to look at: the text
+/// is counted as undecided (totality is property C04's business), never as a violation.
+fn note_panic(st: &mut Stats, stage: &str, p: &Panic, src: &str) {
+    st.panics += 1;
+    if st.panic_notes.len() < 3 {
+        st.panic_notes.push(format!("{stage} panicked ({}) on {}", p.sig(), show_text(src)));
+    }
+}
+
+// ---------------------------------------------------------------- executing a case
+
+fn run_exh(alpha: &str, len: usize, prefix: &[usize], seps: &str, st: &mut Stats) {
+    let al = alphabet(alpha);
+    if len == 0 || prefix.len() > len || prefix.iter().any(|&i| i >= al.len()) {
+        return;
+    }
+    let free = len - prefix.len();
+    let gaps = len - 1;
+    let (nsep, sep_base) = match seps {
+        "all" => (SEPS.len(), 0),
+        "blank" => (1, 1),
+        _ => (1, 0),
+    };
+    let mut word: Vec<usize> = prefix.to_vec();
+    word.resize(len, 0);
+    let mut sepc = vec![0usize; gaps];
+    let mut text = String::new();
+    loop {
+        // all separator choices for this word
+        for s in sepc.iter_mut() {
+            *s = 0;
+        }
+        loop {
+            text.clear();
+            for (i, &w) in word.iter().enumerate() {
+                if i > 0 {
+                    text.push_str(SEPS[sep_base + sepc[i - 1]]);
+                }
+                text.push_str(al[w]);
+            }
+            check_text(&text, st);
+            // next separator vector
+            let mut g = 0;
+            while g < gaps {
+                sepc[g] += 1;
+                if sepc[g] < nsep {
+                    break;
+                }
+                sepc[g] = 0;
+                g += 1;
+            }
+            if g == gaps {
+                break;
+            }
+        }
+        // next word (only the free positions move)
+        let mut p = len;
+        let mut carried = true;
+        while p > len - free {
+            p -= 1;
+            word[p] += 1;
+            if word[p] < al.len() {
+                carried = false;
+                break;
+            }
+            word[p] = 0;
+        }
+        if carried {
+            break;
+        }
+    }
+}
+
+fn run_case(c: &Case) -> Stats {
+    let mut st = Stats::new();
+    match c {
+        Case::Exh { alpha, len, prefix, seps } => run_exh(alpha, *len, prefix, seps, &mut st),
+        Case::Text { text, .. } => check_text(text, &mut st),
+        Case::Cuts { text, cuts, .. } => {
+            let all: Vec<usize>;
+            let cs: &[usize] = match cuts {
+                Some(v) => v,
+                None => {
+                    all = (0..=text.len()).filter(|&i| text.is_char_boundary(i)).collect();
+                    &all
+                }
+            };
+            for &cut in cs {
+                if cut <= text.len() && text.is_char_boundary(cut) {
+                    check_text(&text[..cut], &mut st);
+                    check_text(&text[cut..], &mut st);
+                }
+            }
+        }
+        Case::Block { texts, .. } => {
+            for t in texts {
+                check_text(t, &mut st);
+            }
+        }
+    }
+    st
+}
+
+fn exec(c: &Case, idx: usize, out: &mut Out) -> bool {
+    let cc = c.clone();
+    // deep nesting in mutated/random texts must not take the worker down: big stack
+    let st = match on_thread(512 << 20, move || run_case(&cc)) {
+        Ok(st) => st,
+        Err(p) => {
+            out.inconclusive(idx, &format!("oracle thread failed: {} @ {}", p.msg, p.loc));
+            return false;
+        }
+    };
+    let origin = match c {
+        Case::Exh { alpha, len, seps, .. } => format!("exhaustive:{alpha}^{len}:{seps}"),
+        Case::Text { origin, .. } | Case::Cuts { origin, .. } | Case::Block { origin, .. } => {
+            origin.split(':').next().unwrap_or("").to_string()
+        }
+    };
+    out.set("workload_parts", origin.clone());
+    out.count("texts_checked", st.texts);
+    out.count(&format!("texts_checked[{origin}]"), st.texts);
+    out.count("bytes_checked", st.bytes);
+    out.count("texts_nontrivial", st.nontrivial_texts);
+    out.count("tokens_checked_for_tiling", st.tokens);
+    out.count("trivia_tokens_seen", st.trivia);
+    out.count("trivia_attached_leading", st.trivia_leading);
+    out.count("trivia_attached_trailing", st.trivia_trailing);
+    out.count("texts_with_trivia_attachment_checked", st.texts_with_trivia_checked);
+    out.count("texts_trivia_only_(attachment_not_applicable)", st.trivia_only_texts);
+    out.count("tree_token_leaves_checked", st.leaves);
+    out.count("tree_trivia_leaves_seen", st.trivia_leaves);
+    out.count("texts_with_parser_errors_(recovery_paths)", st.texts_parse_err);
+    out.count("texts_with_error_tokens", st.texts_error_token);
+    out.count("projection_float_splits_seen", st.projection_splits);
+    out.count("texts_with_multibyte_chars", st.multibyte_texts);
+    out.count("texts_undecided_(code_under_test_panicked)", st.panics);
+    for k in &st.kind_names {
+        out.set("token_kinds_seen", k.clone());
+    }
+    for k in &st.skind_names {
+        out.set("syntax_kinds_seen", k.clone());
+    }
+    for e in &st.err_forms {
+        out.set("first_parser_error_forms", e.clone());
+    }
+    for (sig, n) in &st.viol_counts {
+        out.count(&format!("violating_texts:{sig}"), *n);
+    }
+    for (sig, detail, text) in &st.viols {
+        let key = format!("reported:{sig}");
+        let n = out.counters.get(&key).copied().unwrap_or(0);
+        if n < 6 {
+            out.count(&key, 1);
+            let tc = Case::Text { origin: format!("witness-from:{origin}"), text: text.clone() };
+            out.violation(idx, sig, detail, &serde_json::to_value(&tc).unwrap());
+        }
+    }
+    if let (Case::Exh { .. }, Some(t)) = (c, &st.example) {
+        // a concrete member of the block next to the block descriptor itself
+        out.sample(&json!({"Text": {"origin": format!("member-of:{origin}"), "text": t}}));
+    }
+    if st.panics > 0 {
+        out.inconclusive(idx, &format!("{} text(s) undecided: {}", st.panics, st.panic_notes.join(" | ")));
+    }
+    st.nontrivial_texts > 0
+}
+
+// ---------------------------------------------------------------- workload
+
+fn corpus(repo: &str) -> Vec<(String, String)> {
+    let dirs = ["lib", "examples", "crates/lib/mimium-test/tests/mmm", "crates/bin/mimium-fmt/tests"];
+    let mut files = vec![];
+    for d in dirs {
+        let p = std::path::Path::new(repo).join(d);
+        let Ok(rd) = std::fs::read_dir(&p) else { continue };
+        let mut names: Vec<_> =
+            rd.filter_map(|e| e.ok()).map(|e| e.path()).filter(|p| p.extension().is_some_and(|x| x == "mmm")).collect();
+        names.sort();
+        for n in names {
+            if let Ok(t) = std::fs::read_to_string(&n) {
+                let rel = n.strip_prefix(repo).unwrap_or(&n).to_string_lossy().trim_start_matches('/').to_string();
+                files.push((rel, t));
+            }
+        }
+    }
+    files
+}
+
+fn char_boundaries(t: &str) -> Vec<usize> {
+    (0..=t.len()).filter(|&i| t.is_char_boundary(i)).collect()
+}
+
+fn pk(rng: &mut Rng, xs: &[&'static str]) -> &'static str {
+    xs[rng.below(xs.len())]
+}
+
+const BRACKETS: &[&str] = &["(", ")", "[", "]", "{", "}", "|", "`"];
+const TRIVIA_INS: &[&str] = &["/*c*/", "//c\n", " ", "\n", "\r\n", "\t", "/* a\n b */", "//\n", ";", "\r"];
+const OPEN_ENDED: &[&str] = &["\"", "/*", "//", "/", "*/", "1.", ".", "a.0.1", ".0.1", "1.2.3"];
+
+/// 1–3 token-level mutations of `text`; boundaries come from the tokenizer itself (a
+/// generator aid only — the oracle never trusts them).
+fn mutate(rng: &mut Rng, text: &str) -> (String, String) {
+    let mut cur = text.to_string();
+    let mut names = vec![];
+    let n = 1 + rng.below(3);
+    for _ in 0..n {
+        let toks: Vec<(usize, usize, TokenKind)> = match catch(|| tokenize(&cur)) {
+            Ok(t) => t
+                .iter()
+                .filter(|t| t.kind != TokenKind::Eof && t.end() <= cur.len() && cur.is_char_boundary(t.start) && cur.is_char_boundary(t.end()))
+                .map(|t| (t.start, t.end(), t.kind))
+                .collect(),
+            Err(_) => vec![],
+        };
+        let bounds = char_boundaries(&cur);
+        let tb = |rng: &mut Rng| -> usize {
+            if toks.is_empty() { *rng.pick(&bounds) } else { rng.pick(&toks).0 }
+        };
+        let which = rng.below(12);
+        match which {
+            0 if !toks.is_empty() => {
+                let (s, e, _) = *rng.pick(&toks);
+                cur.replace_range(s..e, "");
+                names.push("delete-token");
+            }
+            1 if !toks.is_empty() => {
+                let (s, e, _) = *rng.pick(&toks);
+                let piece = cur[s..e].to_string();
+                cur.insert_str(e, &piece);
+                names.push("duplicate-token");
+            }
+            2 if toks.len() >= 2 => {
+                let i = rng.below(toks.len() - 1);
+                let (s1, e1, _) = toks[i];
+                let (s2, e2, _) = toks[i + 1];
+                let a = cur[s1..e1].to_string();
+                let b = cur[s2..e2].to_string();
+                cur.replace_range(s1..e2, &format!("{b}{a}"));
+                names.push("swap-adjacent-tokens");
+            }
+            3 => {
+                let br: Vec<_> = toks.iter().filter(|t| BRACKETS.contains(&&cur[t.0..t.1])).collect();
+                if let Some(&&(s, e, _)) = (!br.is_empty()).then(|| rng.pick(&br)) {
+                    cur.replace_range(s..e, pk(rng, BRACKETS));
+                    names.push("bracket-scramble");
+                }
+            }
+            4 => {
+                let p = *rng.pick(&bounds);
+                cur.insert_str(p, pk(rng, UNI));
+                names.push("unicode-insert");
+            }
+            5 => {
+                let p = tb(rng);
+                cur.insert_str(p, pk(rng, TRIVIA_INS));
+                names.push("trivia-insert");
+            }
+            6 => {
+                cur = cur.replace("\r\n", "\n").replace('\n', "\r\n");
+                names.push("crlf");
+            }
+            7 => {
+                let p = *rng.pick(&bounds);
+                cur.truncate(p);
+                cur.push_str(pk(rng, OPEN_ENDED));
+                names.push("truncate+open-ended");
+            }
+            8 => {
+                let p = tb(rng);
+                cur.insert_str(p, pk(rng, FULL));
+                names.push("lexeme-insert");
+            }
+            9 => {
+                let p = tb(rng);
+                cur.insert_str(p, pk(rng, OPEN_ENDED));
+                names.push("open-ended-insert");
+            }
+            10 => {
+                // strip all white space between two tokens somewhere
+                let ws: Vec<_> = toks.iter().filter(|t| matches!(t.2, TokenKind::Whitespace | TokenKind::LineBreak)).collect();
+                if let Some(&&(s, e, _)) = (!ws.is_empty()).then(|| rng.pick(&ws)) {
+                    cur.replace_range(s..e, "");
+                    names.push("glue-tokens");
+                }
+            }
+            _ => {
+                // numeric literal substitution
+                let nums: Vec<_> = toks.iter().filter(|t| matches!(t.2, TokenKind::Int | TokenKind::Float)).collect();
+                if let Some(&&(s, e, _)) = (!nums.is_empty()).then(|| rng.pick(&nums)) {
+                    cur.replace_range(s..e, pk(rng, &["0", "1.", ".5", "1.2.3", "00", "1.5", "3.0.0", "a.0.1"]));
+                    names.push("number-substitution");
+                }
+            }
+        }
+    }
+    (cur, names.join("+"))
+}
+
+fn random_text(rng: &mut Rng) -> String {
+    let n = 1 + rng.below(14);
+    let mut s = String::new();
+    for _ in 0..n {
+        match rng.below(10) {
+            0..=4 => s.push_str(pk(rng, FULL)),
+            5..=6 => s.push_str(pk(rng, UNI)),
+            7 => s.push_str(pk(rng, OPEN_ENDED)),
+            8 => {
+                // arbitrary scalar value
+                let c = loop {
+                    let v = match rng.below(4) {
+                        0 => rng.below(0x80) as u32,
+                        1 => rng.below(0x800) as u32,
+                        2 => rng.below(0x10000) as u32,
+                        _ => rng.below(0x110000) as u32,
+                    };
+                    if let Some(c) = char::from_u32(v) {
+                        break c;
+                    }
+                };
+                s.push(c);
+            }
+            _ => s.push_str(pk(rng, TRIVIA_INS)),
+        }
+        if rng.chance(1, 3) {
+            s.push_str(pk(rng, SEPS));
+        }
+    }
+    s
+}
+
+struct Plan {
+    /// (alphabet, len, prefix length, separator mode)
+    exh: Vec<(&'static str, usize, usize, &'static str)>,
+    muts_per_file: usize,
+    /// None = every char boundary; Some(n) = n random cut points per file
+    cuts_per_file: Option<usize>,
+    rand_blocks: usize,
+    rand_block_size: usize,
+}
+
+fn plan(args: &Args) -> Plan {
+    if args.thorough() {
+        Plan {
+            exh: vec![
+                ("full", 1, 0, "all"),
+                ("full", 2, 0, "all"),
+                ("full", 3, 1, "all"),
+                ("full", 4, 1, "glued"),
+                ("core", 4, 2, "all"),
+                ("s1", 6, 2, "blank"),
+                ("s2", 5, 2, "blank"),
+            ],
+            muts_per_file: 40,
+            cuts_per_file: None,
+            rand_blocks: 3000,
+            rand_block_size: 200,
+        }
+    } else {
+        Plan {
+            exh: vec![
+                ("full", 1, 0, "all"),
+                ("full", 2, 0, "all"),
+                ("full", 3, 1, "all"),
+                ("s1", 5, 2, "blank"),
+                ("s2", 4, 2, "blank"),
+            ],
+            muts_per_file: 8,
+            cuts_per_file: Some(48),
+            rand_blocks: 400,
+            rand_block_size: 100,
+        }
+    }
+}
+
+fn pow(b: usize, e: usize) -> usize {
+    (0..e).fold(1, |a, _| a * b)
+}
+
+/// The enumerated part as a flat list of (alphabet, len, prefix, seps) cases.
+fn exh_cases(p: &Plan) -> Vec<Case> {
+    let mut v = vec![];
+    for &(alpha, len, plen, seps) in &p.exh {
+        let al = alphabet(alpha);
+        for code in 0..pow(al.len(), plen) {
+            let mut prefix = vec![0usize; plen];
+            let mut c = code;
+            for k in (0..plen).rev() {
+                prefix[k] = c % al.len();
+                c /= al.len();
+            }
+            v.push(Case::Exh { alpha: alpha.to_string(), len, prefix, seps: seps.to_string() });
+        }
+    }
+    v
+}
+
+fn exh_rule(p: &Plan) -> String {
+    p.exh
+        .iter()
+        .map(|&(alpha, len, _, seps)| {
+            let n = alphabet(alpha).len();
+            let s = if seps == "all" { pow(SEPS.len(), len - 1) } else { 1 };
+            format!(
+                "{alpha}^{len} ({n} lexemes, separators: {}, {} texts)",
+                if seps == "all" { format!("all {}^{} choices", SEPS.len(), len - 1) } else { seps.to_string() },
+                pow(n, len) * s
+            )
+        })
+        .collect::<Vec<_>>()
+        .join("; ")
+}
+
+pub fn meta(args: &Args) -> Value {
+    let p = plan(args);
+    json!({
+        "level": "exploration",
+        "rule": format!(
+            "(a) exhaustive: every string of lexemes from the tables in c13.rs (full = one or more lexemes per token kind incl. unterminated string/comment, `//` at EOF, CR/CRLF/tab, float-vs-projection shapes `a.0.1` `1.2.3` `1.` `.5`, non-grammar and multi-byte chars; core = the split-sensitive and structural subset; s1/s2 = the tokens the parser's decisions and recovery paths hinge on, joined by one blank), separators from {{\"\", \" \", \"\\n\"}} at every gap: {}; one case = one block of that enumeration (fixed prefix). (b) every file of the repository's corpus (lib, examples, mimium-test/tests/mmm, mimium-fmt/tests) whole; its prefixes and suffixes at {} ; {} token-level mutants per file (delete/duplicate/swap token, bracket scramble, unicode/trivia/lexeme insertion, CRLF, truncation into an open string/comment/number, glue tokens, number substitution). (c) {} blocks of {} random texts (lexemes, Unicode specials, arbitrary scalar values). A text is non-trivial if it has >= 2 tokens before the end marker of which >= 1 is not trivia; a case is non-trivial if it contains such a text. Distinctness = hash of the case (enumeration block or the texts themselves). A text on which the code under test panics is counted as undecided (C04's subject), never as a violation.",
+            exh_rule(&p),
+            match p.cuts_per_file { None => "every char boundary".to_string(), Some(n) => format!("{n} random char boundaries per file") },
+            p.muts_per_file, p.rand_blocks, p.rand_block_size),
+        "assumptions": [
+            "trivia = LineBreak | Whitespace | SingleLineComment | MultiLineComment (the oracle's own list; `;` is lexed as LineBreak and therefore trivia)",
+            "\"neighbouring\" = only trivia tokens lie between the trivia token and the syntax token whose map entry holds it",
+            "trivia attachment is only asserted for texts with at least one non-trivia token",
+            "token leaves that refer to trivia tokens are tolerated (counted), the tree clause is about non-trivia tokens",
+            "the token vector returned by parse_cst (kinds re-annotated) is the one the leaves index; it must have the layout of tokenize's",
+        ],
+        "floor": {"quick": 2500, "thorough": 8000},
+        "exhaustive": true,
+        "case_timeout_s": 300,
+        "hang_is_violation": false,
+    })
+}
+
+pub fn run(args: &Args, out: &mut Out) {
+    let p = plan(args);
+    let exh = exh_cases(&p);
+    let files = corpus(&args.repo);
+    let n_exh = exh.len();
+    let per_file = 2 + p.muts_per_file;
+    let n_corpus = files.len() * per_file;
+    let total_all = n_exh + n_corpus + p.rand_blocks;
+    let total = args.budget.map(|b| b.min(total_all)).unwrap_or(total_all);
+    out.max_samples = 2;
+    if files.is_empty() && args.shard == 0 {
+        out.inconclusive(0, &format!("no corpus files found under {}", args.repo));
+    }
+    if args.shard == 0 {
+        out.count("corpus_files", files.len() as u64);
+        out.count("lexemes_full", FULL.len() as u64);
+        out.count("lexemes_core", CORE.len() as u64);
+    }
+    let rbs = p.rand_block_size;
+    drive(
+        args,
+        out,
+        total,
+        |idx, rng| {
+            if idx < n_exh {
+                return Some(exh[idx].clone());
+            }
+            let j = idx - n_exh;
+            if j < n_corpus {
+                let (name, text) = &files[j / per_file];
+                return Some(match j % per_file {
+                    0 => Case::Text { origin: format!("corpus:{name}"), text: text.clone() },
+                    1 => {
+                        let cuts = p.cuts_per_file.map(|n| {
+                            let b = char_boundaries(text);
+                            let mut v: Vec<usize> = (0..n).map(|_| *rng.pick(&b)).collect();
+                            v.sort();
+                            v.dedup();
+                            v
+                        });
+                        Case::Cuts { origin: format!("corpus-cuts:{name}"), text: text.clone(), cuts }
+                    }
+                    _ => {
+                        let (t, how) = mutate(rng, text);
+                        Case::Text { origin: format!("corpus-mutant:{name}:{how}"), text: t }
+                    }
+                });
+            }
+            Some(Case::Block { origin: "random".into(), texts: (0..rbs).map(|_| random_text(rng)).collect() })
+        },
+        exec,
+    );
+}
+
+pub fn replay(_args: &Args, out: &mut Out, case: &Value) {
+    replay_one::<Case>(out, case, exec);
+}
